@@ -448,7 +448,9 @@ func NewServer(cfgs ...*Config) *Server {
 		log.Printf("[WS] Config validation warning: %v", err)
 	}
 
-	hub := NewHub()
+	// The hub enforces the connection and room limits, the queue size and the
+	// heartbeat settings, so it has to be built from the same configuration.
+	hub := NewHubWithConfig(cfg)
 	go hub.Run()
 
 	return &Server{
